@@ -1,6 +1,6 @@
 #!/usr/bin/env python3
 """Re-runs checks of /verif against seeded mutants (seeded/<name>/patch.diff) in a scratch worktree of /repo.
-usage: lib/reseed.py [--tier quick] [--wt DIR] NAME[:C01,C07] ...   (default checks: the mutant's own property)
+usage: lib/reseed.py [--tier quick] [--wt DIR] [--caught] NAME[:C01,C07] ...   (default checks: the mutant's own property; --caught: the check that caught it last time)
 Results are merged into seeded/<name>/meta.json ("checks": per check caught / exit / lines, "checked_at_commit")."""
 import json
 import os
@@ -24,12 +24,15 @@ def main():
     tier = "quick"
     wt = "/tmp/mut/reseed-%d" % os.getpid()
     items = []
+    only_caught = False
     while args:
         a = args.pop(0)
         if a == "--tier":
             tier = args.pop(0)
         elif a == "--wt":
             wt = args.pop(0)
+        elif a == "--caught":
+            only_caught = True
         else:
             items.append(a)
     sd = os.path.join(ROOT, "seeded")
@@ -48,6 +51,11 @@ def main():
             with open(mp) as f:
                 meta = json.load(f)
             checks = [c for c in cs.split(",") if c] or [meta["property"]]
+            if only_caught and not cs:
+                # regression run: the (first) check that caught it last time
+                prev = [c for c, r in sorted(meta.get("checks", {}).items()) if r.get("caught")]
+                own = [c for c in prev if c == meta["property"]]
+                checks = (own or prev)[:1] or [meta["property"]]
             sh("git checkout -q -- . && git clean -fdq src derive tests", cwd=wt)
             rc, out = sh(["git", "apply", "--whitespace=nowarn", os.path.join(sd, name, "patch.diff")], cwd=wt)
             if rc != 0:
